@@ -4,7 +4,7 @@ import datetime as dt
 
 from checks._src import ensure_src
 
-STARTS = ["1", "5", "16", "42", "099", "999", "0001", "0999", "1000", "1009", "1998", "9998", "10999", "22000", "998999"]
+STARTS = ["1", "5", "16", "42", "099", "999", "0001", "0999", "1000", "1009", "1998", "9998", "10999", "22000", "998999", "01500", "09990", "001000"]
 
 
 def chain(pattern, start, steps):
@@ -12,7 +12,7 @@ def chain(pattern, start, steps):
     from bumpver import v2version
 
     d = dt.date(2020, 1, 1)
-    cur = "v2020." + start
+    cur = "v2020." + start + ("-beta3" if "TAG" in pattern else "")
     prev_id = start
     for i in range(steps):
         try:
@@ -21,9 +21,13 @@ def chain(pattern, start, steps):
             return None
         if nxt is None:
             return f"{pattern}: incr({cur!r}) gives no new version at step {i}"
-        new_id = nxt.split(".", 1)[1]
+        new_id = nxt.split(".", 1)[1].split("-")[0]
         if not new_id.isdigit():
             return f"{pattern}: {cur!r} -> {nxt!r}: build id is not a number"
+        if "BUILD" in pattern and i >= 1 and len(new_id) < len(prev_id):
+            return f"{pattern}: {cur!r} -> {nxt!r}: the build id lost a digit"
+        if "BUILD" in pattern and len(start) >= 4 and len(new_id) < len(prev_id):
+            return f"{pattern}: {cur!r} -> {nxt!r}: the build id lost a digit (leading zeros of a padded id must be kept)"
         if not int(new_id) > int(prev_id):
             return f"{pattern}: {cur!r} -> {nxt!r}: build number does not grow numerically"
         if "BUILD" in pattern and i >= 1 and not new_id > prev_id:
@@ -44,7 +48,7 @@ def run(tier="quick", seed=0):
     steps = 1200 if tier == "quick" else 12000
     bad = []
     n = 0
-    for pattern in ("vYYYY.BUILD", "vYYYY.BLD"):
+    for pattern in ("vYYYY.BUILD", "vYYYY.BLD", "vYYYY.BUILD[-TAGNUM]"):  # the last one has a part right of BUILD that is reset on every bump
         for s in STARTS:
             if pattern.endswith("BLD") and s.startswith("0"):
                 continue  # BLD is written without leading zeros
